@@ -686,9 +686,44 @@ def check_crash_points(trace, session, ops, complete, d, ctx):
     abort_outcome = ""
     if n >= 2:
         abort_outcome = check_abort(session, d, ctx, rng)
+    if n <= 300:
+        abort_outcome += check_abandoned(session, d, ctx, rng)
     ctx.probe("images", n_images)
     ctx.nontrivial = True
     ctx.op("crash-enum", "".join(outcomes[-8:]) + f"n{min(n, 40)}c{int(session['declared'])}" + abort_outcome)
+
+
+def check_abandoned(session, d, ctx, rng):
+    """The writer object is DROPPED without close() (the caller's loop raised, the function returned, the program ended):
+    writing stopped before the file was closed, so what is on disk must not open."""
+    import gc
+    from gaddlemaps.parsers import GroFile
+    P = "C14"
+    recs = session["records"]
+    n = len(recs)
+    declared = bool(session["declared"]) and rng.random() < 0.5
+    k = rng.randint(1, n - 1) if (declared and n >= 2) else rng.randint(1, n)
+    path = os.path.join(d, "abandoned.gro")
+    try:
+        f = GroFile(path, "w")
+        _configure(f, session)
+        if declared:
+            f.natoms = n
+        for r in recs[:k]:
+            f.writeline(list(r))
+        del f
+        gc.collect()
+    except Exception as e:
+        ctx.violate("C13", "writer-raised", f"writing {k} records raised {type(e).__name__}: {e}")
+        return "D?"
+    ctx.fault("writer_object_dropped_without_close")
+    got = try_read(path, None)
+    if got is not None:
+        ctx.violate(P, "abandoned-file-accepted", f"a writer was dropped without close() after {k} of {n} records (count "
+                                                  f"{'declared' if declared else 'not declared'}); the file it left behind opens "
+                                                  f"without an error", key="declared" if declared else "undeclared")
+        return "Dacc"
+    return "D"
 
 
 def check_abort(session, d, ctx, rng):
